@@ -112,5 +112,12 @@ theorem applyLimits_upper_zero_witness :
     applyLimits ([0, 1, 2] : List ℚ) (some (none, some 0)) = [0, 1, 2] ∧ ([0, 1, 2] : List ℚ).filter (· ≤ 0) = [0] := by
   decide +kernel
 
+/-- limits on data that are NOT ascending (a hysteresis loop: up, then down; a desorption branch alone, stored descending): the selection is by
+VALUE, in measurement order — a bisection that assumes ascending data returns `[2, 3]` on the first and nothing on the second (round 8, C03-m1) -/
+theorem applyLimits_hysteresis_witness :
+    applyLimits ([1, 2, 3, 4, 5 / 2, 3 / 2] : List ℚ) (some (some (6 / 5), some (7 / 2))) = [2, 3, 5 / 2, 3 / 2] ∧
+    applyLimits ([4, 5 / 2, 3 / 2, 1 / 2] : List ℚ) (some (some 1, none)) = [4, 5 / 2, 3 / 2] := by
+  decide +kernel
+
 end Fill
 end PgVerif.C03
